@@ -3,6 +3,7 @@ package main
 import (
 	"bytes"
 	"fmt"
+	"strings"
 
 	"verif/seqx/wsgen"
 )
@@ -54,6 +55,21 @@ func zPayload(class string, id, n int) []byte {
 	panic("zPayload: unknown class " + class)
 }
 
+// zDeflate is wsgen.Deflate (the reference permessage-deflate encoder: compress/flate used
+// directly), memoised: a flate.Writer is ~1 MB of fresh memory, far too much per execution.
+// The cache is filled while the scenario list is built (zVerify), before any execution runs.
+var zDeflateCache = map[string][]byte{}
+
+func zDeflate(payload []byte, level int) []byte {
+	k := fmt.Sprintf("%d|%s", level, payload)
+	if b, ok := zDeflateCache[k]; ok {
+		return b
+	}
+	b := append([]byte{}, wsgen.Deflate(payload, level)...)
+	zDeflateCache[k] = b
+	return b
+}
+
 func framesFor(n, f int) int {
 	if n <= f {
 		return 1
@@ -74,7 +90,7 @@ type zShape struct {
 }
 
 func zShapeOf(b zBig, id, level, f int) zShape {
-	c := len(wsgen.Deflate(zPayload(b.class, id, b.n), level))
+	c := len(zDeflate(zPayload(b.class, id, b.n), level))
 	return zShape{c: c, fu: framesFor(b.n, f), fc: framesFor(c, f)}
 }
 
@@ -100,7 +116,7 @@ func zScriptMsgs(c qcfg, i int, script string) []*outMsg {
 			panic("zScriptMsgs: unknown script letter in " + script)
 		}
 		if m.kind == 'M' {
-			m.body = wsgen.Deflate(m.payload, c.level)
+			m.body = zDeflate(m.payload, c.level)
 		}
 		mine = append(mine, m)
 	}
@@ -110,7 +126,7 @@ func zScriptMsgs(c qcfg, i int, script string) []*outMsg {
 // zAfterMsg is the follow-up message written by the main thread after the queue drained.
 func zAfterMsg(c qcfg) *outMsg {
 	m := &outMsg{id: "after", writer: 99, kind: 'M', op: wsgen.OpBinary, payload: payloadFor(9, zSmallLen)}
-	m.body = wsgen.Deflate(m.payload, c.level)
+	m.body = zDeflate(m.payload, c.level)
 	return m
 }
 
@@ -225,20 +241,26 @@ func attributeWrites(fc *fakeConn, msgs []*outMsg, f int) (unowned int) {
 	return unowned
 }
 
-// zPlan lists the compression scenarios of the tier.
+// zPlan lists the compression scenarios of the tier (F=16 throughout).
 //
-// Quick (level 1 = the Upgrader's default, F=16): incompressible B of every length kF-d, k in
-// {1,2}, d in 0..6 (d<6 grows across the frame boundary, d=6 ends exactly on it) x free slots
-// {k, k+1} x messages queued before {2 for all, 0 for d in {0,3,6}}; compressible B of lengths
-// that shrink below a frame boundary x free slots {fc, fu}; a few variants with a ping in the
-// queue, a second writer, a close. Thorough adds k=3, 0-3 messages before for every d, and the
-// levels -2 (Huffman only), 0 (stored only), 6 and 9.
+// Quick, level 1 (the Upgrader's default; stores incompressible input: +6 bytes):
+//   - incompressible B of every length kF-d, k in {1,2}, d in 0..6 (d<6 grows across the frame
+//     boundary: one frame more than the uncompressed length suggests; d=6 ends exactly on it)
+//     x free slots {k, k+1} behind two queued small messages; two preemptions for d in {0,3,6},
+//     one for the other d; for d in {0,3,6} also with an empty queue (B is the head)
+//   - compressible B of four lengths that shrink below a frame boundary x free slots {fc, fu}
+//   - variants: a ping among the queued frames, a second writer, two big messages, a close racing
+//
+// Thorough: k up to 3, 0-3 messages queued before, free slots {k-1, k, k+1, fc+1} for every d at
+// the levels 1 and 6 (6: fixed Huffman, +3..+5 bytes), the d in {0,3,6} column at the levels -2
+// (Huffman only), 0 (stored only) and 9, more compressible lengths, the two-writer variants for
+// four big messages at two preemptions.
 func zPlan(thorough bool) []qcfg {
 	const f = 16
 	var out []qcfg
 	seen := map[string]bool{}
 	add := func(c qcfg, pq, pt int) {
-		c.f, c.z, c.closeBy = f, true, c.closeBy
+		c.f, c.z = f, true
 		if c.closeBy == "" {
 			c.closeBy = "none"
 		}
@@ -253,86 +275,87 @@ func zPlan(thorough bool) []qcfg {
 		zVerify(c)
 		out = append(out, c)
 	}
-	pre := func(n int) string { // n small messages, then B
-		s := ""
-		for i := 0; i < n; i++ {
-			s += "x"
-		}
-		return s + "B"
-	}
 	one := func(level int, b zBig, npre, free int, pq, pt int) {
 		if free < 0 || npre+free < 1 || npre+free > 9 {
 			return
 		}
-		add(qcfg{writers: []string{pre(npre)}, qmax: npre + free, level: level, big: b, after: true}, pq, pt)
+		add(qcfg{writers: []string{strings.Repeat("x", npre) + "B"}, qmax: npre + free, level: level, big: b, after: true}, pq, pt)
 	}
+	boundary := func(d int) bool { return d == 0 || d == 3 || d == 6 }
+
 	levels := []int{1}
 	if thorough {
-		levels = []int{1, -2, 0, 6, 9}
+		levels = []int{1, 6, -2, 0, 9}
 	}
 	for _, level := range levels {
+		full := level == 1 || level == 6
 		ks := []int{1, 2}
-		if thorough {
+		if thorough && level == 1 {
 			ks = []int{1, 2, 3}
 		}
-		// incompressible: grows across (d<6 at the levels that store) or up to the frame boundary
+		// incompressible
 		for _, k := range ks {
 			for d := 0; d <= 6; d++ {
+				if !full && !boundary(d) {
+					continue
+				}
 				b := zBig{"rnd", k*f - d}
-				sh := zShapeOf(b, 2, level, f)
 				pres := []int{2}
-				if d == 0 || d == 3 || d == 6 {
+				if boundary(d) {
 					pres = []int{2, 0}
 				}
-				if thorough {
+				if thorough && full {
 					pres = []int{0, 1, 2, 3}
 				}
 				for _, np := range pres {
-					for _, free := range []int{sh.fu, sh.fu + 1} {
-						one(level, b, np, free, 2, 3)
+					sh := zShapeOf(b, np, level, f) // B is message number np of writer 0
+					pq := 1
+					if boundary(d) {
+						pq = 2
 					}
-					if thorough {
-						one(level, b, np, sh.fu-1, 2, 3)
-						one(level, b, np, sh.fc+1, 2, 3)
+					for _, free := range []int{sh.fu, sh.fu + 1} {
+						one(level, b, np, free, pq, 2)
+					}
+					if thorough && full {
+						one(level, b, np, sh.fu-1, 2, 2)
+						one(level, b, np, sh.fc+1, 2, 2)
 					}
 				}
 			}
 		}
-		// compressible: shrinks below a frame boundary (over-counting from the uncompressed
-		// length is safe, under-counting is not)
+		// compressible: over-counting from the uncompressed length is safe, under-counting is not
+		if level == 0 {
+			continue // stored only: nothing shrinks
+		}
 		reps := []int{f + 1, f + 3, 2*f + 1, 3 * f}
-		if thorough {
+		if thorough && full {
 			reps = []int{f + 1, f + 2, f + 3, 2 * f, 2*f + 1, 3 * f, 3*f + 1, 4 * f}
 		}
 		for _, n := range reps {
 			b := zBig{"rep", n}
-			if level == 0 {
-				continue // stored only: nothing shrinks
-			}
 			sh := zShapeOf(b, 2, level, f)
 			for _, free := range []int{sh.fc, sh.fu} {
-				one(level, b, 2, free, 2, 3)
-				if thorough {
-					one(level, b, 0, free, 2, 3)
-					one(level, b, 1, free, 2, 3)
+				one(level, b, 2, free, 2, 2)
+				if thorough && full {
+					one(level, b, 0, free, 2, 2)
+					one(level, b, 1, free, 2, 2)
 				}
 			}
-			if thorough {
-				one(level, b, 2, sh.fc-1, 2, 3)
+			if thorough && full {
+				one(level, b, 2, sh.fc-1, 2, 2)
 			}
 		}
 	}
-	// variants at the default level: a ping among the queued frames, a second writer, the queue
-	// limit hit while a close is racing
+	// variants at the default level
 	b16, b32, b29 := zBig{"rnd", f}, zBig{"rnd", 2 * f}, zBig{"rnd", 2*f - 3}
 	add(qcfg{writers: []string{"xpB"}, qmax: 3, level: 1, big: b16, after: true}, 2, 3)
-	add(qcfg{writers: []string{"xpB"}, qmax: 4, level: 1, big: b32, after: true}, 2, 3)
+	add(qcfg{writers: []string{"xpB"}, qmax: 4, level: 1, big: b32, after: true}, 1, 3)
 	add(qcfg{writers: []string{"xB", "x"}, qmax: 3, level: 1, big: b16, after: true}, 1, 2)
 	add(qcfg{writers: []string{"xB", "x"}, qmax: 4, level: 1, big: b29, after: true}, 1, 2)
 	add(qcfg{writers: []string{"B", "B"}, qmax: 3, level: 1, big: b16, after: true}, 1, 2)
 	add(qcfg{writers: []string{"xB", "p"}, qmax: 3, level: 1, big: b32, after: true}, 1, 2)
-	add(qcfg{writers: []string{"xxB"}, qmax: 4, level: 1, big: b32, closeBy: "eof"}, 2, 3)
-	add(qcfg{writers: []string{"xB"}, qmax: 3, level: 1, big: b16, closeBy: "close"}, 2, 3)
+	add(qcfg{writers: []string{"xxB"}, qmax: 4, level: 1, big: b32, closeBy: "eof"}, 1, 2)
+	add(qcfg{writers: []string{"xB"}, qmax: 3, level: 1, big: b16, closeBy: "close"}, 1, 2)
 	if thorough {
 		for _, b := range []zBig{b16, b32, b29, {"rep", 2*f + 1}} {
 			sh := zShapeOf(b, 1, 1, f)
